@@ -2453,15 +2453,26 @@ impl<'e> Fv<'e> {
             }
             "chain" | "chain3" => {
                 let (kind, words) = if f[0] == "chain" { (f[1], &f[2..]) } else { ("seq", &f[1..]) };
-                if kind == "map" {
-                    let mk = |w: &str, base: usize| Value::from_pairs(self.items(wv(w), false).into_iter().enumerate().map(|(p, k)| (k, Value::from(base + p))));
+                if kind == "map" || kind == "mapu" {
+                    // `mapu`: the entries at the even positions hold undefined values (shown `u` when the key is found)
+                    let undef = kind == "mapu";
+                    let mk = |w: &str, base: usize| {
+                        Value::from_pairs(self.items(wv(w), false).into_iter().enumerate().map(|(p, k)| (k, if undef && p % 2 == 0 { Value::UNDEFINED } else { Value::from(base + p) })))
+                    };
                     let (a, b) = (mk(words[0], 0), mk(words[1], 10));
                     return match self.apply("chain", &[a, b]) {
                         Ok(v) => {
                             let keys = to_vec(&v).unwrap_or_default();
+                            let shown = |k: &Value| match v.get_item(k) {
+                                Ok(x) if undef && x.is_undefined() => {
+                                    if render_flag(self.env, "{{ 1 if k in v else 0 }}", context! { k => k.clone(), v => v.clone() }) == '1' { "u".to_string() } else { String::new() }
+                                }
+                                Ok(x) => x.to_string(),
+                                Err(_) => "e".into(),
+                            };
                             format!(
                                 "ok:{} kind={:?} len={}",
-                                keys.iter().map(|k| format!("{}={}", letter_of(k, &self.idents), v.get_item(k).map(|x| x.to_string()).unwrap_or("e".into()))).collect::<Vec<_>>().join(","),
+                                keys.iter().map(|k| format!("{}={}", letter_of(k, &self.idents), shown(k))).collect::<Vec<_>>().join(","),
                                 v.kind(),
                                 v.len().map_or("-".to_string(), |n| n.to_string())
                             )
@@ -2639,6 +2650,10 @@ fn wv(w: &str) -> &str {
     if w == "-" { "" } else { w }
 }
 
+// ------------------------------------------------------------------------------------------ derived maps
+
+include!("c07_dm.inc");
+
 // ------------------------------------------------------------------------------------------ main
 
 fn words(max_len: usize, base: usize) -> Vec<String> {
@@ -2661,7 +2676,7 @@ fn words(max_len: usize, base: usize) -> Vec<String> {
 
 /// the parts `gen <tier> <part>` knows; every part is self-contained (the lines the driver needs to
 /// register values come with it), so parts and shards of a part run as separate processes
-const PARTS: [&str; 12] = ["zoo", "tpl", "flist", "flistB", "long", "rev", "lk", "rand", "hint", "fv", "runs", "xf"];
+const PARTS: [&str; 13] = ["zoo", "tpl", "flist", "flistB", "long", "rev", "lk", "rand", "hint", "fv", "runs", "xf", "dm"];
 
 /// `C07_SHARD=i/n`: this process runs the units `u` of its part with `u % n == i`
 fn shard() -> (usize, usize) {
@@ -2672,6 +2687,13 @@ fn shard() -> (usize, usize) {
             Some((a.parse().ok()?, b.parse::<usize>().ok()?.max(1)))
         })
         .unwrap_or((0, 1))
+}
+
+/// quick-tier sampling of an enumerated box: keep unit `u` when its mixed index falls into class 0 of `k`
+/// (deterministic in VERIF_SEED, independent of the sharding)
+fn sample_skip(u: usize, salt: usize, k: usize) -> bool {
+    let h = (u as u64 ^ (salt as u64).wrapping_mul(0x9E37_79B9_7F4A_7C15)).wrapping_mul(0xBF58_476D_1CE4_E5B9);
+    ((h >> 29) % k as u64) != 0
 }
 
 /// one random stream per part, whatever the sharding
@@ -2728,8 +2750,13 @@ fn gen_part(out: &mut dyn Write, env: &Environment<'static>, thorough: bool, par
         }
         "flist" => {
             // filters: all words of length ≤ 5 over the 7-letter alphabet
+            // quick: every word of length ≤ 4 (2801 lists), the 16807 words of length 5 sampled 1 in 8 (by seed)
+            let salt = seed_from_env() as usize;
             for (u, w) in words(5, 7).into_iter().enumerate() {
                 if !mine(u) {
+                    continue;
+                }
+                if !thorough && w.len() == 5 && sample_skip(u, salt, 8) {
                     continue;
                 }
                 let wtxt = if w.is_empty() { "-".to_string() } else { w.clone() };
@@ -2743,8 +2770,13 @@ fn gen_part(out: &mut dyn Write, env: &Environment<'static>, thorough: bool, par
             }
         }
         "flistB" => {
+            // quick: every word of length ≤ 3, the 2401 words of length 4 sampled 1 in 4 (by seed)
+            let salt = seed_from_env() as usize;
             for (u, w) in words(4, 7).into_iter().enumerate() {
                 if !mine(u) {
+                    continue;
+                }
+                if !thorough && w.len() == 4 && sample_skip(u, salt, 4) {
                     continue;
                 }
                 let wtxt = if w.is_empty() { "-".to_string() } else { w.clone() };
@@ -2764,7 +2796,7 @@ fn gen_part(out: &mut dyn Write, env: &Environment<'static>, thorough: bool, par
         "long" => {
             // long random lists (ties everywhere): an unstable or insertion-only sort shows here
             let mut rng = part_rng(part);
-            let n_long = if thorough { 2000 } else { 200 };
+            let n_long = if thorough { 2000 } else { 96 };
             for u in 0..n_long {
                 let len = 21 + rng.below(if thorough { 300 } else { 120 }) as usize;
                 let w: String = (0..len).map(|_| char::from(b'0' + rng.below(7) as u8)).collect();
@@ -2858,6 +2890,7 @@ fn gen_part(out: &mut dyn Write, env: &Environment<'static>, thorough: bool, par
         }
         "fv" => gen_fv(out, env, thorough, &mine),
         "xf" => gen_xf(out, env, thorough, &mine),
+        "dm" => gen_dm(out, env, thorough, &mine),
         "runs" => {
             // run lengths for the model
             let huge = ["9223372036854775807", "9223372036854775808", "18446744073709551615", "18446744073709551616", "768614336404564651"];
@@ -3073,11 +3106,13 @@ fn gen_xf(out: &mut dyn Write, env: &Environment<'static>, thorough: bool, mine:
     for a in fv_words(2, true).iter() {
         for b in fv_words(2, true).iter().step_by(if thorough { 3 } else { 9 }) {
             cases.push(format!("chain map {} {}", wd(a), wd(b)));
+            cases.push(format!("chain mapu {} {}", wd(a), wd(b)));
         }
     }
     // keys that are `Equal` without being `==` (NaN) or `==` in another spelling (1 / 1.0) in both dictionaries
     for (a, b) in [("7", "7"), ("7", "71"), ("17", "70"), ("0", "1"), ("1", "0"), ("01", "10"), ("8", "9"), ("3", "d")] {
         cases.push(format!("chain map {a} {b}"));
+        cases.push(format!("chain mapu {a} {b}"));
     }
     for a in LETTERS.chars() {
         for b in LETTERS.chars() {
@@ -3130,6 +3165,7 @@ fn main() {
                 "valv" => run_val(&build(&dec(f[1]))),
                 "flist" => run_flist(&env, f[1], if f[2] == "-" { "" } else { f[2] }),
                 "rev" => run_rev(&env, f[1], if f[2] == "-" { "" } else { f[2] }),
+                "dm" => Dm { env: &env, index_mode: std::env::var("C07_MODE").map_or(false, |m| m == "index") }.run(f[1]),
                 "batch" | "slicef" => run_runs(&env, f[0], f[1].parse().unwrap(), f[2], f[3] == "1"),
                 "fv" => {
                     let fv = Fv { env: &env, al: alphabet2(), idents: alphabet2().iter().map(|sp| ident(&build(sp))).collect() };
